@@ -198,11 +198,12 @@ def resolve(uri: Union[str, URI], delay_time: float = 0.0) -> URI:
         return uri
     log.debug("resolving %s", uri)
     from . import nameserver   # doing it here to avoid circular import issues
+    ns_host = "./u:" + uri.sockname if uri.sockname else uri.host    # (the name server can be behind a Unix socket too)
     if uri.protocol == "PYRONAME":
-        with locate_ns(uri.host, uri.port) as ns:
+        with locate_ns(ns_host, uri.port) as ns:
             return nameserver.lookup(ns, uri.object, delay_time=delay_time)
     elif uri.protocol == "PYROMETA":
-        with locate_ns(uri.host, uri.port) as ns:
+        with locate_ns(ns_host, uri.port) as ns:
             candidates = nameserver.yplookup(ns, uri.object, None, False, delay_time)
             if candidates:
                 candidate = random.choice(list(candidates.values()))
